@@ -248,10 +248,11 @@ struct Slot {
   std::optional<ada::url> u;
   ada_url c = nullptr;
   bool present = false;
+  bool from_parse = false;   // the object is the result of a parse (no setter was called on it since)
   void clear() {
     a.reset(); u.reset();
     if (c) ada_free(c);
-    c = nullptr; present = false;
+    c = nullptr; present = false; from_parse = false;
   }
 };
 
@@ -332,6 +333,7 @@ struct Exec {
     Slot& x = s[o];
     x.clear();
     x.present = true;
+    x.from_parse = true;
     if (ra) x.a = std::move(*ra);
     x.u = std::move(nu);
     x.c = nc;
@@ -344,6 +346,7 @@ struct Exec {
   bool set(int o, const std::string& op, std::string_view v) {
     Slot& x = s[o];
     if (!x.a) return false;
+    x.from_parse = false;
     Arg arg(v);
     std::string_view sv = arg.sv();
     bool ra = true, ru = true, rc = true, has_ret = true;
@@ -410,8 +413,10 @@ struct Exec {
     std::optional<ada::url> nu;
     if (x.u) nu = *x.u;
     ada_url nc = (c_api && x.c) ? ada_copy(x.c) : nullptr;
+    bool fp = x.from_parse;
     d.clear();
     d.present = true;
+    d.from_parse = fp;
     d.a = std::move(na); d.u = std::move(nu); d.c = nc;
     out().line("{\"e\":\"copy\",\"o\":" + std::to_string(o) + ",\"src\":" + std::to_string(src) + "," + obs3(o) + "}");
   }
@@ -446,7 +451,7 @@ struct Exec {
     std::string ob = obs3(0);
     std::swap(s[0], t);
     t.clear();
-    out().line("{\"e\":\"reparse\",\"o\":" + std::to_string(o) + "," + ob + "}");
+    out().line("{\"e\":\"reparse\",\"o\":" + std::to_string(o) + ",\"fp\":" + jb(x.from_parse) + "," + ob + "}");
   }
 
   // can_parse(in, base string or none) next to what parse does for the same arguments
